@@ -226,6 +226,9 @@ pub fn check_spend(rng: &mut Rng, acc: &mut Acc) -> Vec<String> {
         out.push(format!("treasury UpdateConfig by {} {}", if caller2_admin { "the admin" } else { "a non-admin" }, if r2.ok { "succeeded" } else { "failed" }));
     }
     if let Ok(cfg) = w.query(&t, "{\"config\":{}}") {
+        if vs(&cfg, "trader") != trader || vs(&cfg, "admin") != admin {
+            out.push(format!("routes-only UpdateConfig changed the trader / admin to {} / {}", vs(&cfg, "trader"), vs(&cfg, "admin")));
+        }
         let n = cfg.get("allowed_swap_routes").and_then(|x| x.as_array()).map(|a| a.len()).unwrap_or(99);
         if (n == 1) != caller2_admin {
             out.push(format!("allow-list has {n} routes after UpdateConfig by {}", if caller2_admin { "admin" } else { "non-admin" }));
